@@ -32,6 +32,39 @@
 (*   [ev |-> "idle"]                    the event loop has nothing to run     *)
 (*   [ev |-> "final"]                   actors stopped proposing, every call  *)
 (*                                      answered, loop idle                   *)
+(*                                                                            *)
+(* Clauses of (a), all on recorded values only:                               *)
+(*   X02.CommandWithinDistribution        every set_power call happens while  *)
+(*        exactly one distribute_power is in progress                         *)
+(*   X02.DistributionIsForSentRequest     that distribution was entered with  *)
+(*        a Request the manager sent (same object / same power)               *)
+(*   X02.SetpointsSumToRequestMinusExcess set-points of one distribution add  *)
+(*        up to the request's power minus the excess its Result reports       *)
+(*        (deviation Dev_DistributionLostPower: the battery algorithm itself  *)
+(*        returned set-points + remaining # request, C01)                     *)
+(*   X02.ResultAccountsForRequest         succeeded + failed + excess =       *)
+(*        request, failed = set-points of the calls that did not return ok    *)
+(*   X02.DistributionReportsResult        exactly one Result per distribution *)
+(*   X02.ResultRefersToSentRequest        every Result sent by the component  *)
+(*        manager / received by the power manager names a sent Request, and   *)
+(*        what is received is what a distribution of that request produced    *)
+(*   X02.RequestIsSumOfReportedTargets    Request = regular target + operating*)
+(*        point target in the reports that accompany it                       *)
+(*   X02.RequestWithinStreamedBounds      Request within the latest bounds    *)
+(*        the manager had consumed from the pool when it sent it              *)
+(*   X02.RequestInForceWithinLatestBounds at every idle point the latest      *)
+(*        Request lies within the latest consumed bounds                      *)
+(*   X02.OneAtATime / X02.LatestWins      no distribution is entered while    *)
+(*        another runs; entered request ids increase; at idle points the last *)
+(*        sent request is applied or waits behind the running one; at the end *)
+(*        it has been applied                                                 *)
+(*   X02.FinalCommandedEqualsTarget       at the end: last request = last     *)
+(*        reported targets, its distribution commanded target - excess, of    *)
+(*        which target - excess - failed succeeded                            *)
+(* (b) X02.TraceNotExplainedBySpec        no behaviour of PowerPath explains  *)
+(*        the recorded lines (reported by the driver from the unconsumed      *)
+(*        trace; the manager's handlers are matched against PowerManager.tla, *)
+(*        request and reported targets included)                              *)
 EXTENDS PowerPath, SequencesExt, TLCExt
 
 VARIABLES tid, l
